@@ -4,6 +4,7 @@
 #include "ykw.h"
 
 int run_lin(const vf::Args&);
+int run_lin_micro(const vf::Args&);
 int run_scan(const vf::Args&);
 int run_phantom(const vf::Args&);
 int run_phantom_micro(const vf::Args&);
@@ -22,6 +23,7 @@ int main(int argc, char** argv) {
     vf::ctl::install();
     std::string mode = args.str("mode");
     if (mode == "lin") { return run_lin(args); }
+    if (mode == "lin_micro") { return run_lin_micro(args); }
     if (mode == "scan") { return run_scan(args); }
     if (mode == "phantom") { return run_phantom(args); }
     if (mode == "phantom_micro") { return run_phantom_micro(args); }
